@@ -282,7 +282,7 @@ class C18(Prop):
         for init in INITIAL:
             yield from self._dfs(init, full_d, False, want, counter)
             yield from self._dfs(init, red_d, True, want, counter)
-        n = 6000 if tier == 'quick' else 200000
+        n = 6000 if tier == 'quick' else 120000
         k = counter[0]
         for j in range(n):
             k += 1
